@@ -320,6 +320,13 @@ func (g *c02Gen) points(side string) c02Op {
 	for k := 0; k < 1+g.r.Intn(2); k++ {
 		ps = append(ps, sPoint{Type: []string{"value", "description", "units"}[g.r.Intn(3)], Key: []string{"", "1", "2", "3"}[g.r.Intn(4)],
 			Time: g.tick(), VBits: math.Float64bits(float64(g.r.Intn(100))), Text: []string{"", "x", "söme"}[g.r.Intn(3)]})
+		if g.r.Intn(4) == 0 {
+			// a point-level deletion (the tombstone counter of the point itself) or a binary payload: fields that the
+			// point checksum does not cover travel with the point all the same
+			ps[len(ps)-1].Tomb = 1 + g.r.Intn(2)
+		} else if g.r.Intn(6) == 0 {
+			ps[len(ps)-1].Data = []byte{byte(g.r.Intn(256)), 0, 7}
+		}
 	}
 	return c02Op{side, sOp{Kind: "np", Node: n, Points: ps}}
 }
@@ -385,6 +392,26 @@ func c02GenCase(r *rand.Rand, id int, allowDelete bool) *c02Case {
 		// the same point (same instant) written to two different nodes on opposite sides: the XOR of point
 		// CRCs, which do not cover the node id, gives both sides the same hashes (finding equal-hash-different-content)
 		kind = "outage-twin-points"
+	}
+	if id%8 == 5 {
+		// an entry deleted on one side (point-level tombstone) and written again, later, on the other
+		kind = "outage-point-delete"
+		n := g.pick("D")
+		c.Phases[0].Ops = append(c.Phases[0].Ops, c02Op{"D", sOp{Kind: "np", Node: n, Points: []sPoint{{Type: "ip", Key: "9", Time: g.tick(), Text: "10.0.0.1"}}}})
+		a, b := "D", "U"
+		if r.Intn(2) == 0 {
+			a, b = b, a
+		}
+		c.Kind = kind
+		down := c02Phase{Name: "down", Ops: []c02Op{
+			{a, sOp{Kind: "np", Node: n, Points: []sPoint{{Type: "ip", Key: "9", Time: g.tick(), Text: "10.0.0.1", Tomb: 1}}}},
+			{b, sOp{Kind: "np", Node: n, Points: []sPoint{{Type: "ip", Key: "9", Time: g.tick(), Text: "10.0.0.3"}}}}}}
+		if r.Intn(2) == 0 {
+			down.Ops = append(down.Ops, g.points(c02Side(r)))
+		}
+		c.Phases = append(c.Phases, down, c02Phase{Name: "up"})
+		c.Nodes = g.nodes
+		return c
 	}
 	c.Kind = kind
 	if kind == "up-only" {
